@@ -1870,12 +1870,13 @@ func (p *parser) parseOperand(lhs, allowTuple, allowCmd bool) (x ast.Expr, isTup
 				p.next()
 				items = append(items, p.parseRHSOrType())
 			}
-			t := &tupleExpr{opening: lparen, items: items, closing: p.pos}
+			t := &tupleExpr{opening: lparen, items: items}
 			if p.tok == token.ELLIPSIS {
 				t.ellipsis = p.pos
 				p.next()
 			}
 			p.exprLev--
+			t.closing = p.pos
 			p.expect(token.RPAREN)
 			return t, true
 		}
